@@ -110,3 +110,32 @@ package entity
 // The id of an entity value is a deterministic attribute of it.
 //@ func Interface.Id
 //@   purefn
+
+// The two resolution errors (C13): a not-found error, and a multiple-match error carrying exactly the ids
+// it was given.
+//@ func NewErrNotFound
+//@   props C13
+//@   modifies nothing
+//@   ensures result != nil && fresh(result)
+//@ func NewErrMultipleMatch
+//@   props C13
+//@   modifies nothing
+//@   ensures result != nil && fresh(result) && result.Matching == matching
+
+// Prefix tests on ids are plain string-prefix tests; the error classifiers look at the dynamic type only.
+//@ func Id.HasPrefix
+//@   props C13
+//@   purefn
+//@   ensures result == strings.HasPrefix(string(i), prefix)
+//@ func CombinedId.HasPrefix
+//@   props C13
+//@   purefn
+//@   ensures result == strings.HasPrefix(string(ci), prefix)
+//@ func IsErrNotFound
+//@   props C13
+//@   purefn
+//@   ensures result == (typeof(err) == type[*ErrNotFound])
+//@ func IsErrMultipleMatch
+//@   props C13
+//@   purefn
+//@   ensures result == (typeof(err) == type[*ErrMultipleMatch])
